@@ -21,10 +21,12 @@ Definition r_one_of (l : list ascii) : re := RCls (cs_of l).
 Definition vs_path : re :=
   RCat (RChr "/") (RStar (RCls (cs_not_ws ["{"; "}"; ";"; "\"]))).
 
-(* ^/[^\s{};$]*$     pathRegexp, internal/configs/parsing_helpers.go:403
-   (nginx.org/rewrites rewrite=...; rendered bare, glued after  proxy_pass http://upstream ) *)
+(* ^/[^\s{};$\\]*$   pathRegexp, internal/configs/parsing_helpers.go:403
+   (nginx.org/rewrites rewrite=...; rendered bare, glued after  proxy_pass http://upstream ).
+   History: until /repo commit d7c2e82 (finding F27) the class did not exclude the backslash and
+   the language was NOT safe at this site (slash x backslash swallowed the terminator). *)
 Definition ing_rewrite : re :=
-  RCat (RChr "/") (RStar (RCls (cs_not_ws ["{"; "}"; ";"; "$"]))).
+  RCat (RChr "/") (RStar (RCls (cs_not_ws ["{"; "}"; ";"; "$"; "\"]))).
 
 (* ^/[^\s;]*$        pathFmt, internal/k8s/validation.go:895   (Ingress path; bare after  location ) *)
 Definition ing_path : re :=
@@ -80,11 +82,28 @@ Definition time : re :=
         time_unit (RChr "d"); r_ws; time_unit (RChr "h"); r_ws; time_unit (RChr "m"); r_ws;
         time_unit (ROpt (RChr "s")); r_ws; time_unit (RStr "ms")].
 
-(* ---- the languages a repair would use (see the findings F06 F27 F28 F29) *)
+(* \w = [0-9A-Za-z_] *)
+Definition cs_w : charset := CS false [(48, 57); (65, 90); (95, 95); (97, 122)].
 
-(* ^/[^\s{};$\\]*$ *)
-Definition ing_rewrite_fixed : re :=
-  RCat (RChr "/") (RStar (RCls (cs_not_ws ["{"; "}"; ";"; "$"; "\"]))).
+(* ^(\$\{\w+\}|\$\w+|[^\s;{}\\dq'#$])+$     limitReqKeyRegexp, internal/k8s/validation.go:399
+   (nginx.org/limit-req-key, validated since /repo commit 3e8e85f (finding F26); rendered bare as the
+   first argument of  limit_req_zone ) *)
+Definition limit_req_key : re :=
+  RPlus (RAlt (RSeq [RChr "$"; RChr "{"; RPlus (RCls cs_w); RChr "}"])
+        (RAlt (RCat (RChr "$") (RPlus (RCls cs_w)))
+              (RCls (cs_not_ws [";"; "{"; "}"; "\"; ch_dq; ch_sq; "#"; "$"])))).
+
+(* ^(\d+)(r/s|r/m)$   rateRegexp, internal/configs/parsing_helpers.go:244
+   (ParseRequestRate: nginx.org/limit-req-rate, validated since 3e8e85f; rendered  rate=VALUE ) *)
+Definition ing_rate : re := RSeq [r_digits; RStr "r/"; r_one_of ["s"; "m"]].
+
+(* ^[-A-Za-z0-9]+$     httpHeaderNameFmt, k8s.io/apimachinery/pkg/util/validation (IsHTTPHeaderName):
+   every header NAME of /repo: proxy set / add headers, errorPage headers and, since /repo commit
+   7a5e973 (finding F52), action.return.headers; rendered bare after  add_header / proxy_set_header ) *)
+Definition http_header_name : re :=
+  RPlus (RCls (CS false [(45, 45); (48, 57); (65, 90); (97, 122)])).
+
+(* ---- the languages a repair would use (see the open findings F28 F29 F54) *)
 
 (* ^[^\s{};\\]*$ *)
 Definition grpc_service_fixed : re := RStar (RCls (cs_not_ws ["{"; "}"; ";"; "\"])).
@@ -102,8 +121,9 @@ Definition validator_regexes : list (string * re) :=
    ("escaped", escaped); ("realm", realm); ("jwt_token", jwt_token);
    ("return_type", return_type); ("grpc_service", grpc_service); ("ts_hash", ts_hash);
    ("size", size); ("offset", offset); ("rate", rate); ("proxy_buffers", proxy_buffers);
-   ("time", time);
-   ("ing_rewrite_fixed", ing_rewrite_fixed); ("grpc_service_fixed", grpc_service_fixed);
+   ("time", time); ("limit_req_key", limit_req_key); ("ing_rate", ing_rate);
+   ("http_header_name", http_header_name);
+   ("grpc_service_fixed", grpc_service_fixed);
    ("ts_hash_fixed", ts_hash_fixed); ("sticky_fixed", sticky_fixed)]%string.
 
 Fixpoint lookup_re (name : string) (l : list (string * re)) : option re :=
